@@ -9,10 +9,11 @@ import (
 func init() { register("C18", propC18) }
 
 func propC18(c *Ctx) {
-	c.Explanation = "Mutual exclusion and freedom from lost wake-ups quantify over interleavings of the mutex's atomic operations; no static argument in reach enumerates schedules, so they are NOT decided. Decided are the structural necessary conditions the published protocol (v: 1 free, 0 held, negative held-with-waiters; one token in a 1-buffered channel) rests on: (M1) TryLock and Unlock contain no operation that can block (no receive, no blocking send/select, no lock or park call, no dynamic call), and Lock's only blocking operation is the receive on m.ch; (M2) the state word v is touched only as &m.v handed to sync/atomic functions, except the plain store in Init, and ch is written only in Init with make(chan struct{}, 1) - capacity exactly 1; (M3) the exact protocol tables: TryLock returns false when the loaded state is <= 0 and otherwise exactly the result of CompareAndSwapInt32(&v,1,0); Unlock swaps in 1 and sends the token, through a non-blocking select, exactly when the old value was not 0 - no other condition may suppress or add the signal; Lock returns only when AddInt32(&v,-1) == 0 or when, in the slow path, the state was >= 0 and SwapInt32(&v,-1) returned 1, and it sleeps on the channel only after that test failed. Any edit that adds, drops or re-guards an atomic operation, the signal or the sleep changes one of these tables. NOT decided: that the protocol itself is correct under every interleaving (that is a model-checking question)."
+	c.Explanation = "Mutual exclusion and freedom from lost wake-ups quantify over interleavings of the mutex's atomic operations; no static argument in reach enumerates schedules, so they are NOT decided. Decided are the structural necessary conditions the published protocol (v: 1 free, 0 held, negative held-with-waiters; one token in a 1-buffered channel) rests on: (M1) TryLock and Unlock contain no operation that can block (no receive, no blocking send/select, no lock or park call, no dynamic call), and Lock's only blocking operation is the receive on m.ch; (M2) the state word v is touched only as &m.v handed to sync/atomic functions, except the plain store in Init, and ch is written only in Init with make(chan struct{}, 1) - capacity exactly 1; (M3) the exact protocol tables: TryLock returns false when the loaded state is <= 0 and otherwise exactly the result of CompareAndSwapInt32(&v,1,0); Unlock swaps in 1 and sends the token, through a non-blocking select, exactly when the old value was not 0 - no other condition may suppress or add the signal; Lock returns only when AddInt32(&v,-1) == 0 or when, in the slow path, the state was >= 0 and SwapInt32(&v,-1) returned 1, and it sleeps on the channel only after that test failed. Any edit that adds, drops or re-guards an atomic operation, the signal or the sleep changes one of these tables. (M4) package tmutex converts its state word to no narrower type. NOT decided: that the protocol itself is correct under every interleaving (that is a model-checking question)."
 	tm := "(*tmutex.Mutex)."
 	av := func(op, args string) string { return "sync/atomic." + op + "(&$0.v" + args + ")" }
 
+	c.NoNewNarrowing(c.Rule("M4", "K8 narrowing (closed world, reviewed table)", "package tmutex converts its state word to no narrower type", 2), []string{"/pkg/tmutex"}, nil)
 	m1 := c.Rule("M1", "K11 effect confinement", "TryLock/Unlock cannot block; Lock blocks only on m.ch", 3)
 	for _, name := range []string{"TryLock", "Unlock"} {
 		if fn := c.Fn(m1, tm+name); fn != nil {
